@@ -250,7 +250,12 @@ class Binding:
             if kind == "dir" and self.rng.random() < 0.12:
                 # a source / target set handed over as another collection of the same nodes (the class accepts any iterable)
                 e = self.api_edge(k)
-                obj.add_edge(tuple(self.rng.choice([list, set, frozenset, tuple])(side) for side in e), **kw)
+                try:
+                    obj.add_edge(tuple(self.rng.choice([list, set, frozenset, tuple])(side) for side in e), **kw)
+                except TypeError:
+                    # a class that refuses such a collection is within its rights (not judged): the call is made again with
+                    # tuples; one that accepts it must store the same hyperedge
+                    obj.add_edge(e, **kw)
             elif kind in ("hg", "dir"):
                 obj.add_edge(self.api_edge(k), **kw)
             elif kind == "temp":
